@@ -330,6 +330,14 @@ func (e *Engine) evCall(c *ast.CallExpr, st *State) []Value {
 				}
 				return []Value{v}
 			}
+		case "rangeWidth":
+			// rangeWidth(): inside a range-over-string body, the byte width of the current rune
+			if e.isSpecHelper(id) {
+				if v, ok := st.vars[rangeWidthKey]; ok {
+					return []Value{v}
+				}
+				e.fail(c.Pos(), "rangeWidth(): not inside a range-over-string body")
+			}
 		case "rangeIndex":
 			if e.isSpecHelper(id) {
 				tv := e.pk.Info.Types[c.Args[0]]
